@@ -68,7 +68,7 @@ var (
 				},
 				ExtraImports:        extraImports,
 				Capitalizations:     capitalizations,
-				DefaultOutputName:   defaultOutput,
+				DefaultOutputName:   cleanOutputName(defaultOutput),
 				DefaultPackageName:  defaultPackage,
 				SchemaMappings:      []generator.SchemaMapping{},
 				ResolveExtensions:   resolveExtensions,
@@ -86,7 +86,7 @@ var (
 					mapping.PackageName = defaultPackage
 				}
 				if s, ok := schemaOutputMap[id]; ok {
-					mapping.OutputName = s
+					mapping.OutputName = cleanOutputName(s)
 				}
 				if s, ok := schemaRootTypeMap[id]; ok {
 					mapping.RootType = s
@@ -233,4 +233,14 @@ func verboseLogf(format string, args ...interface{}) {
 	if verbose {
 		logf(format, args...)
 	}
+}
+
+// cleanOutputName brings the spellings of one path ("out.go", "./out.go", "dir/../out.go") to a single
+// name, so that schemas mapped to the same file share one output instead of overwriting each other.
+func cleanOutputName(name string) string {
+	if name == "" || name == "-" {
+		return name
+	}
+
+	return filepath.Clean(name)
 }
